@@ -7,7 +7,7 @@ TECH = 'static analysis: rustc_private MIR fact extraction + repository-specific
 
 CLAIMED = {
     'C01': ('snapshot-table routing evaluated exhaustively over the tree constants, fan-out completeness, open-mode classification '
-            '(stream files truncated), start-up order on the call graph, codec field coverage',
+            '(stream files truncated), start-up order on the call graph, codec field coverage, end-of-log detection predicate (truth table) and zero terminator',
             'routing walk under each table constant, who-calls-whom order, typestate of OpenOptions chains, field sets', '3 C01'),
     'C02': ('index-area writer/rewinder agreement (taint), validated end-of-data test, acknowledgement edge-dominated by the awaited '
             'write result, contiguity guard, no discarded Result on the append chain, catalogue paired with log-list changes',
@@ -15,17 +15,17 @@ CLAIMED = {
     'C03': ('erasure of the removed data/index range on every success path of strip_log_to, rewind completeness against the write-set '
             'of write(), catalogue pairing, index-equality guard', 'must-pass-through + field sets + pairing', '3 C03'),
     'C04': ('write ordering (data before index, flush before Ok, snapshot publication order), single-writer ownership table, '
-            'fresh-image layout, last-applied after apply', 'dominance / must-pass-through on MIR CFGs + who-may-call table', '3 C04'),
+            'fresh-image layout, last-applied after apply, zero terminator after the last record, exclusive bound of the snapshot unlink loop', 'dominance / must-pass-through on MIR CFGs + who-may-call table', '3 C04'),
     'C05': ('save routing and funnel into write_index under ctx.wait, fresh-file threshold below the smallest record, exclusive '
-            'ownership of catalogue fields, reader/writer field agreement of the DTO codec', 'pairing + constant comparison + field sets', '3 C05'),
+            'ownership of catalogue fields, reader/writer field agreement of the DTO codec, membership/addresses of an installed snapshot reach the index file', 'pairing + constant comparison + field sets', '3 C05'),
     'C06': ('error discipline on the config commit chain only: no discarded Result from the route to Raft::client_write, every caller '
-            'branches on the result, follower temp value only after the leader answered', 'discard analysis + call graph + dominance', '3 C06'),
+            'branches on the result, follower temp value only after the leader answered, follower apply path uses do_send only (no try_send / detached task)', 'discard analysis + call graph + dominance', '3 C06'),
     'C07': ('the three hand-written dispatch copies reduced to per-variant normal forms (actor, message, variant, field mapping) and '
             'compared; last-applied recording; order preservation on the follower path', 'sibling cross-check over normal forms', '3 C07'),
     'C08': ('install path reaches the state-machine loader on the call graph (with actix message edges), header membership persisted, '
             'install file truncated, install order', 'call-graph reachability + taint + dominance', '3 C08'),
     'C09': ('value map <-> listing index pairing, md5 provenance from get_md5 of the same content, unchanged-content short circuit guard, '
-            'history bound, key separator round trip (decoded format templates), index size counter guard', 'pairing + taint + guard analysis', '3 C09'),
+            'history bound, key separator round trip (decoded format templates), index size counter guard, listing total = counter incremented by 1 under both filters', 'pairing + taint + guard analysis', '3 C09'),
     'C10': ('change implies both notifications on every path, atomic compare-and-register (synchronous handler, complementary edges), '
             'comparison shape, timeout driver re-arm, subscriber map mirroring', 'must-pass-through + guard analysis', '3 C10'),
     'C11': ('service map <-> namespace index pairing, empty-service guard, reverse map maintenance, counter co-update with sign and '
@@ -36,9 +36,9 @@ CLAIMED = {
     'C14': ('position and modulus of the owner range computed over the same (valid) population as route_addr, same hasher, is_range truth '
             'table (exhaustive on a grid), range refresh after status change', 'taint + exhaustive interpretation + pairing', '3 C14'),
     'C15': ('THIN: dead-node client invalidation, an arm per sync message kind forwarding to the naming actor, local changes announced '
-            'through the delay-notify batch; convergence itself is not decided', 'wiring checks on the call/message graph', '3 C15'),
+            'through the delay-notify batch, every client-set removal announced to the naming actor on every path; convergence itself is not decided', 'wiring checks on the call/message graph', '3 C15'),
     'C16': ('route table extracted from the registration DSL x middleware literal tables (exhaustive), middleware pass logic as a truth '
-            'table over its branch conditions, gRPC ignore list and dispatch guard table', 'route-DSL evaluation + table cross product + CFG truth-table walk', '3 C16'),
+            'table over its branch conditions, per-route end-to-end evaluation of the middleware with the tables it consults, classification of the routed (percent-decoded) path, gRPC ignore list and dispatch guard table', 'route-DSL evaluation + table cross product + CFG truth-table walk', '3 C16'),
     'C17': ('console route table x permission tables x roles (exhaustive): login pass-logic truth table, exempt list, static-file bypass, '
             'role monotonicity, write-sink classification of handlers per role', 'table cross product + call-graph sink classification', '3 C17'),
     'C18': ('privilege predicates as exhaustive truth tables, every console data handler guarded by a privilege check or handing the '
@@ -46,7 +46,7 @@ CLAIMED = {
     'C19': ('high-water marks reach the sequence on all apply paths, snapshot stores the reserved end, single id source, SimpleSequence '
             'arithmetic by exhaustive small-grid interpretation', 'taint + sibling forms + abstract interpretation', '3 C19'),
     'C20': ('varint writer/reader/size agreement for ALL u64 by exhaustive abstract interpretation of MIR over 65 leading-bit classes; '
-            'buffer reads guarded by the valid end; end-marker test; consumer alternation', 'abstract interpretation (bit provenance) + guard analysis', '3 C20'),
+            'buffer reads guarded by and bounded to the valid end; is_empty truth table; end-marker test; consumer alternation', 'abstract interpretation (bit provenance) + guard analysis', '3 C20'),
 }
 
 NOT_YET = {}
